@@ -721,6 +721,8 @@ var apiDbs = []string{"db", "db2"}
 var apiColls = []string{"c", "d"}
 
 type apiGen struct {
+	knownIDs   []interface{} // ids handed to earlier inserts (so later filters hit)
+	knownNames []string      // index names created earlier
 	r        *rng
 	openSess int64 // session with an open transaction, 0 if none
 	nextSess int64
@@ -784,7 +786,9 @@ func (g *apiGen) fieldVal() interface{} {
 func (g *apiGen) doc(withID bool) bson.D {
 	d := bson.D{}
 	if withID {
-		d = append(d, bson.E{Key: "_id", Value: g.id()})
+		id := g.id()
+		g.knownIDs = append(g.knownIDs, id)
+		d = append(d, bson.E{Key: "_id", Value: id})
 	}
 	for _, k := range []string{"a", "b", "c"} {
 		if g.r.chance(3, 5) {
@@ -910,6 +914,9 @@ func (g *apiGen) filter() bson.D {
 	case 0:
 		return bson.D{}
 	case 1, 2:
+		if len(g.knownIDs) > 0 && r.chance(3, 4) {
+			return bson.D{{Key: "_id", Value: pick(r, g.knownIDs)}}
+		}
 		return bson.D{{Key: "_id", Value: g.id()}}
 	case 3:
 		return bson.D{{Key: pick(r, []string{"a", "b", "c"}), Value: g.scalar()}}
@@ -988,6 +995,15 @@ func (g *apiGen) indexSpec() string {
 	name := ""
 	if r.chance(1, 4) {
 		name = pick(r, []string{"ix", "a_1", "_id_"})
+	}
+	if name != "" {
+		g.knownNames = append(g.knownNames, name)
+	} else if len(key) > 0 {
+		var segs []string
+		for _, e := range key {
+			segs = append(segs, e.Key, fmt.Sprint(e.Value))
+		}
+		g.knownNames = append(g.knownNames, strings.Join(segs, "_"))
 	}
 	partial := "NIL"
 	if r.chance(1, 4) {
@@ -1069,6 +1085,9 @@ func (g *apiGen) call() string {
 	case k < 87:
 		return "(createIndex " + s + " " + t + " " + g.indexSpec() + ")"
 	case k < 90:
+		if len(g.knownNames) > 0 && r.chance(2, 3) {
+			return "(dropIndex " + s + " " + t + " " + hx(pick(r, g.knownNames)) + ")"
+		}
 		return "(dropIndex " + s + " " + t + " " + hx(pick(r, []string{"a_1", "b_1", "ix", "_id_", "a_-1", "c_1", "a_1_b_1"})) + ")"
 	case k < 91:
 		return "(dropAllIndexes " + s + " " + t + ")"
